@@ -240,8 +240,9 @@ Definition patl (n m : nat) (p : asg) : list bool := map (fun q => (q =? m) || g
 Definition others (n m : nat) : list nat := filter (fun q => negb (q =? m)) (seq 0 n).
 Definition cgate (i n m : nat) (p : asg) : list mg :=
   mxs (patl n m p) n ++ [MGU i (others n m) m] ++ mxs (patl n m p) n.
-Definition blockg (n : nat) (L : list step) (d : nat) (p : asg) : list mg :=
-  flat_map (fun s => cgate 0 n (fst s) (snd s)) L ++ cgate 1 n d p ++ flat_map (fun s => cgate 0 n (fst s) (snd s)) (rev L).
+Definition blockg_i (i n : nat) (L : list step) (d : nat) (p : asg) : list mg :=
+  flat_map (fun s => cgate 0 n (fst s) (snd s)) L ++ cgate i n d p ++ flat_map (fun s => cgate 0 n (fst s) (snd s)) (rev L).
+Definition blockg := blockg_i 1.
 
 Lemma nth_patl n m p i : i < n -> nth i (patl n m p) true = (i =? m) || get p i.
 Proof.
@@ -299,29 +300,35 @@ Proof.
   constructor. exact Hm. eapply IH. exact H.
 Qed.
 
-Lemma blockg_Block n L : forall d p psi, Forall (fun s => fst s < n) L -> d < n ->
-  run (blockg n L d p) psi = Block n L d p (M 1) psi.
+Lemma blockg_i_Block i n L : forall d p psi, Forall (fun s => fst s < n) L -> d < n ->
+  run (blockg_i i n L d p) psi = Block n L d p (M i) psi.
 Proof.
   induction L as [|[m q] L IH]; intros d p psi HL Hd.
-  - unfold blockg. cbn [flat_map rev app]. rewrite app_nil_r. now apply cgate_sem.
+  - unfold blockg_i. cbn [flat_map rev app]. rewrite app_nil_r. now apply cgate_sem.
   - inversion HL as [|s l Hm HL']; subst. cbn [fst] in Hm.
-    assert (E : blockg n ((m, q) :: L) d p = cgate 0 n m q ++ blockg n L d p ++ cgate 0 n m q).
-    { unfold blockg. cbn [flat_map rev fst snd]. rewrite flat_map_app. cbn [flat_map fst snd]. rewrite app_nil_r.
+    assert (E : blockg_i i n ((m, q) :: L) d p = cgate 0 n m q ++ blockg_i i n L d p ++ cgate 0 n m q).
+    { unfold blockg_i. cbn [flat_map rev fst snd]. rewrite flat_map_app. cbn [flat_map fst snd]. rewrite app_nil_r.
       rewrite <- !app_assoc. reflexivity. }
     rewrite E, !run_app, !move_sem by auto. rewrite IH by auto. reflexivity.
 Qed.
+Lemma blockg_Block n L d p psi : Forall (fun s => fst s < n) L -> d < n ->
+  run (blockg n L d p) psi = Block n L d p (M 1) psi.
+Proof. apply blockg_i_Block. Qed.
 
 (* the theorem: a block whose path passes the checker is the two-level operator *)
-Theorem blockg_two_level n L d p col row psi : path_ok n L d p col row = true ->
-  run (blockg n L d p) psi = two_level n col row (M 1) psi.
+Theorem blockg_i_two_level i n L d p col row psi : path_ok n L d p col row = true ->
+  run (blockg_i i n L d p) psi = two_level n col row (M i) psi.
 Proof.
-  intros H. rewrite blockg_Block.
+  intros H. rewrite blockg_i_Block.
   - now apply Block_two_level.
   - eapply path_moves. exact H.
   - clear psi. revert col row H. induction L as [|[m q] L IH]; intros col row H; cbn [path_ok] in H.
     + rewrite !andb_true_iff in H. apply Nat.ltb_lt. tauto.
     + apply andb_true_iff in H. destruct H as [_ H]. eapply IH. exact H.
 Qed.
+Theorem blockg_two_level n L d p col row psi : path_ok n L d p col row = true ->
+  run (blockg n L d p) psi = two_level n col row (M 1) psi.
+Proof. apply blockg_i_two_level. Qed.
 End Gates.
 
 (* ---------- the path that the code takes (unitary._build_qr_circuit): always move the lowest differing qubit ---------- *)
@@ -449,4 +456,33 @@ Proof.
   - destruct (diffs n col row); [discriminate | discriminate].
   - destruct (diffs n col row) eqn:E; [discriminate|]. apply andb_true_iff in H. now apply negb_true_iff.
   - destruct (diffs n col row) eqn:E; [discriminate|]. apply andb_true_iff in H. tauto.
+Qed.
+
+(* ---------- the whole circuit: one block per factor of the Givens sequence, block k using the matrix M (k + 1) ---------- *)
+Definition qr_block_i (i n : nat) (col row : asg) : list mg :=
+  let r := gray (diffs n col row) col row in blockg_i i n (fst (fst r)) (snd (fst r)) (snd r).
+Fixpoint qr_circuit (n k : nat) (prs : list (asg * asg)) : list mg :=
+  match prs with
+  | [] => []
+  | (col, row) :: rest => qr_block_i (S k) n col row ++ qr_circuit n (S k) rest
+  end.
+Fixpoint qr_ops (M : nat -> mat2) (n k : nat) (prs : list (asg * asg)) (psi : state) : state :=
+  match prs with
+  | [] => psi
+  | (col, row) :: rest => qr_ops M n (S k) rest (two_level n col row (M (S k)) psi)
+  end.
+Theorem qr_circuit_sem (M : nat -> mat2) n : M 0 = Xm -> forall prs k psi,
+  forallb (fun cr => qr_pre n (fst cr) (snd cr)) prs = true ->
+  mrun M (qr_circuit n k prs) psi = qr_ops M n k prs psi.
+Proof.
+  intros M0. induction prs as [|[col row] rest IH]; intros k psi H. reflexivity.
+  cbn [forallb fst snd] in H. apply andb_true_iff in H. destruct H as [H1 H2].
+  cbn [qr_circuit qr_ops].
+  assert (A : forall P Q s, mrun M (P ++ Q) s = mrun M Q (mrun M P s)) by (intros; unfold mrun; apply fold_left_app).
+  rewrite A. rewrite <- (IH (S k)) by auto. f_equal.
+  unfold qr_pre in H1. unfold qr_block_i.
+  apply (blockg_i_two_level M M0). apply gray_path_ok.
+  - destruct (diffs n col row); [discriminate | discriminate].
+  - destruct (diffs n col row) eqn:E; [discriminate|]. apply andb_true_iff in H1. now apply negb_true_iff.
+  - destruct (diffs n col row) eqn:E; [discriminate|]. apply andb_true_iff in H1. tauto.
 Qed.
